@@ -64,7 +64,8 @@ def step (st : DState) (line : String) : DState × String :=
   | "pst" :: r => let (s, out) := Prestate.handle st.prestate r; ({ st with prestate := s }, out)
   | "begin" :: "bundle" :: r => let (b, out) := Bundle.handleBegin r; ({ st with bundle := b }, out)
   | "bundle" :: r => let (b, out) := Bundle.handle st.bundle r; ({ st with bundle := b }, out)
-  | "begin" :: "hcfg" :: r => let (s, out) := Driver.HandlerCfg.begin r; ({ st with hcfg := s }, out)
+  | "begin" :: "hcfg" :: r => let (s, out) := Driver.HandlerCfg.begin st.hcfg r; ({ st with hcfg := s }, out)
+  | "hcfg-build" :: r => let (s, out) := Driver.HandlerCfg.buildLine st.hcfg r; ({ st with hcfg := s }, out)
   | "hcfg" :: r => let (s, out) := Driver.HandlerCfg.handle st.hcfg r; ({ st with hcfg := s }, out)
   | _ => (st, "bad-op")
 
